@@ -138,6 +138,7 @@ def exact_binding(c, progs, tier, rng):
     recs = harness([{"prog": p, "mode": "profile"} for p in progs] + [{"prog": p, "mode": "ref"} for p in progs], "profile")
     nprog = len(progs)
     total_hist, total_calls = 0, 0
+    vacuous = []
     for n, p in enumerate(progs):
         prof, ref = recs[n]["profile"], recs[nprog + n]
         if "error" in prof:
@@ -177,7 +178,9 @@ def exact_binding(c, progs, tier, rng):
         c.add_tlc(res, "MC_ScriptChunk_file/" + p)
         hists = V.tlc_json_lines(res["out"], "HIST")
         if len(hists) < 50:
-            raise V.ToolError("too few histories exported for %s: %d" % (p, len(hists)))
+            # judged after the replay: a broken accounting can collapse the measured profile, and is then reported
+            # as the violation it is rather than as tool trouble
+            vacuous.append("too few histories exported for %s: %d" % (p, len(hists)))
         jobs = []
         for h in hists:
             sched = [{"lim": lim_real(e["arg"])} for e in h if e["op"] == "chunk"]
@@ -204,6 +207,8 @@ def exact_binding(c, progs, tier, rng):
         c.sample({"exact_history": {"prog": p, "groups": groups, "history": hists[len(hists) // 2]}})
         V.log("[C05] exact %s: %d positions, %d limits, %d budgets, %d histories replayed (%d with a suspension)"
               % (p, len(pos), len(lims), len(buds), len(hists), nontriv))
+    if vacuous and not c.violations:
+        raise V.ToolError("; ".join(vacuous))
     c.set("exact_histories_replayed", total_hist)
     c.set("exact_calls_compared", total_calls)
 
@@ -379,7 +384,11 @@ def opaque_binding(c, progs, tier, rng, shapes, dag_models=()):
                 jobs.append(dict(sp, mode="signal", max=mx, seed=V.seed() * 100 + n, cmds=1 + n % 4,
                                  gap_us=150 if not heavy else 8000))
                 meta.append({"prog": p, "why": "signal", "need": need})
-    V.log("[C05] opaque: %d programs, %d runs scheduled" % (len(progs), len(jobs)))
+        # ... and a Stop command while suspended: "interrupts" (or the ordinary result if the run was already over)
+        jobs.append(dict(sp, mode="signal", max=U64, seed=V.seed() * 100 + 77, cmds=1 + rng.randrange(2), stop=True,
+                         gap_us=150 if not heavy else 8000))
+        meta.append({"prog": p, "why": "signal-stop", "need": need})
+    V.log("[C05] opaque: %d programs (%d DAG witnesses), %d runs scheduled" % (len(names), len(dag_models), len(jobs)))
     out = harness(jobs, "opaque", timeout=2400)
     refof = {p: r for p, r in zip(names, refs)}
     trace_path = os.path.join(V.workdir(PID), "trace_opaque.ndjson")
@@ -474,6 +483,9 @@ def judge_run(j, m, r, ref, codes, stats):
         stats["budget_runs" if kind == "verify" else "signal_runs"] += 1
         if kind == "signal":
             stats["signal_suspends"] += fin.get("suspends_sent", 0)
+            if j.get("stop") and fin["kind"] == "err" and fin["class"] == "interrupts":
+                stats["signal_stopped"] = stats.get("signal_stopped", 0) + 1
+                return evs + [{"ev": "Signal", "max": lim_tla(mx), "stop": True, "res": "interrupts"}], None
         if exp_exceeded:
             if fin["kind"] == "ok":
                 return None, ("budget/%s-below-cost-succeeds" % kind + ("/after-pause" if fin.get("suspends_sent") else ""),
@@ -827,7 +839,8 @@ def replay(path, tier):
     c = V.Check(PID, "model_checking", tier)
     r = json.load(open(path))
     p = r["payload"]
-    if p["kind"] == "exact":
+    kind = p["kind"]
+    if kind == "exact":
         h = p["hist"]
         sched = [{"lim": lim_real(e["arg"])} for e in h if e["op"] == "chunk"]
         fin = {"kind": "complete", "max": lim_real(h[-1]["arg"])} if h[-1]["op"] == "budget" else {"kind": "none"}
@@ -835,11 +848,54 @@ def replay(path, tier):
         bad = compare_history(p["prog"], h, out[0])
         if bad:
             c.violation(bad[0], "%s: %s" % (p["prog"], bad[1]), p)
-    elif p["kind"] == "model":
+    elif kind == "run":
+        job = {k: v for k, v in p["job"].items() if k != "id"}
+        spec = {k: job[k] for k in ("prog", "dag") if k in job}
+        out = harness([dict(spec, mode="ref"), dict(job)], "replay")
+        ref, rec = out[0], out[1]
+        need = 0
+        for g in ref["groups"]:
+            need += g.get("need", 0)
+            if g["kind"] != "ok":
+                break
+        codes = Codes()
+        stats = {k: 0 for k in ("chunks", "no_progress_chunks", "overshoot_chunks", "capped", "budget_runs", "signal_runs", "signal_suspends")}
+        evs, verdict = judge_run(job, {"prog": job["prog"], "need": need}, rec, ref, codes, stats)
+        if verdict:
+            c.violation(verdict[0], "%s: %s" % (job["prog"], verdict[1]), p)
+        elif evs:
+            tp = os.path.join(V.workdir(PID), "trace_replay.ndjson")
+            with open(tp, "w") as f:
+                for e in evs:
+                    f.write(json.dumps(e) + "\n")
+            validate_trace(c, tp, [(len(evs), job, rec)], "replay")
+    elif kind == "dag":
+        d = p["dag"]
+        dp = os.path.join(V.workdir(PID), "dags_replay.json")
+        json.dump([d], open(dp, "w"))
+        res = V.tlc(PID, "MC_VmScheduler", "MC_VmScheduler_ref.cfg", workers=2, env={"C05_DAGS": dp}, coverage=False, tag="replay")
+        refs = V.tlc_json_lines(res["out"], "REFRUN")
+        if not refs:
+            raise V.ToolError("no reference behaviour for the replayed DAG")
+        out = harness([{"prog": "dag", "dag": dag_job(d), "mode": "ref", "iters": True}], "replay")
+        bad = compare_dag_run(refs[0], out[0])
+        if bad:
+            c.violation(bad[0], bad[1], p)
+    elif kind == "model":
         res = V.tlc(PID, "MC_ScriptChunk", p.get("cfg", "MC_ScriptChunk_file.cfg"), workers=8,
                     env={"C05_PROFILE": p.get("profile", "")})
         if res["violated"]:
             c.violation("model/" + res["violated"], "model violation", p)
+    elif kind == "vmodel":
+        res = V.tlc(PID, "MC_VmScheduler", p["cfg"], workers=8, coverage=False,
+                    env={"C05_DAGS": os.path.join(V.workdir(PID), "dags_cuts.json")})
+        if res["violated"]:
+            c.violation("model/VmScheduler/" + res["violated"], "model violation", p)
+    elif kind in ("ref", "profile"):
+        out = harness([{"prog": p["prog"], "mode": "ref"}], "replay")
+        need = sum(g.get("need", 0) for g in out[0]["groups"])
+        if out[0]["ref"]["kind"] == "ok" and need != out[0]["ref"]["cycles"]:
+            c.violation("cycles-differ/iterate-vs-verify/%s" % p["prog"], "iterate total %d, verify %d" % (need, out[0]["ref"]["cycles"]), p)
     else:
-        raise V.ToolError("unknown replay kind %s" % p["kind"])
+        raise V.ToolError("unknown replay kind %s" % kind)
     return 1 if c.violations else 0
